@@ -11,14 +11,18 @@ def instances(tier):
         combos += [(4, a, b) for a in ms for b in ms if a >= 0 and b >= 0]
     for (t, a, b) in combos:
         out.append((B, 'VH_C02_hash_step', [t, a, b], {'weight': 10 + 10 * (max(a, 0) + max(b, 0))}))
+    wide = [(0, 0, 0, 0, -1), (0, 1, 0, 2, 0), (0, 0, 3, 0, 5), (2, -1, -1, -1, -1)] if tier == 'quick' else \
+        [(0, 0, 0, 0, -1), (0, 0, 0, 0, 0), (0, 1, 0, 2, 0), (0, 0, 3, 0, 5), (0, 7, 7, 7, 7), (0, 1, 2, 4, -1), (2, -1, -1, -1, -1)]
+    for w in wide:
+        out.append((B, 'VH_C02_hash_step4', list(w), {'weight': 40 + 10 * sum(max(x, 0) for x in w[1:])}))
     return out
 
 
 CHECK = dict(
     id='C02', pkgs=['boc'], init_pkgs=['std:io', 'boc'], instances=instances, opts={'budget_s': 1500},
-    level_text='(a) level-mask algebra for all 2^32 masks and levels 0..32; (b) one hashing step of newImmutableCell/Hash/Depth: a cell of type ordinary / Merkle proof / Merkle update with 0..2 children that are arbitrary ordinary leaves or pruned branches (any level mask 1..7, arbitrary stored hashes and depths), level mask as the format requires, symbolic data: for every level 0..3 hash and depth equal the specification transcript (descriptor bytes with the level-applied mask, data or previous-level hash, child depths and hashes at level or level+1), ErrDepthIsTooBig exactly at child depth >= 1024; (c) the same value through Cell.Hash, a cold and a warm Hasher, and after reads.',
+    level_text='(a) level-mask algebra for all 2^32 masks and levels 0..32; (b) one hashing step of newImmutableCell/Hash/Depth: a cell of type ordinary / Merkle proof / Merkle update with 0..2 children (and a sample of 3- and 4-child ordinary cells, and library cells) that are arbitrary ordinary leaves or pruned branches (any level mask 1..7, arbitrary stored hashes and depths), level mask as the format requires, symbolic data: for every level 0..3 hash and depth equal the specification transcript (descriptor bytes with the level-applied mask, data or previous-level hash, child depths and hashes at level or level+1), ErrDepthIsTooBig exactly at child depth >= 1024; (c) the same value through Cell.Hash, a cold and a warm Hasher, and after reads.',
     level_note='SHA-256 is an ideal hash (uninterpreted, collision-free): equality of digests is equality of the hashed byte sequences. One step + induction on the height of the DAG (children are arbitrary cells carrying arbitrary hashes/depths). Library cells and 3-4 children are outside the instance list.',
     lifted_by='induction on the height of the cell DAG: children are modelled as arbitrary immutable cells exposing arbitrary per-level hashes and depths',
-    bounds={'quick': {'children': '0..2', 'pruned masks': 'sample'}, 'thorough': {'children': '0..2', 'pruned masks': 'all 1..7 combinations'}},
-    outside_claim=['real SHA-256', 'mainnet blocks', 'cells violating exotic well-formedness', 'library cells', 'cells with 3 or 4 references'],
+    bounds={'quick': {'children': '0..2 (+3, 4 for a sample)', 'pruned masks': 'sample'}, 'thorough': {'children': '0..2', 'pruned masks': 'all 1..7 combinations'}},
+    outside_claim=['real SHA-256', 'mainnet blocks', 'cells violating exotic well-formedness', 'Merkle cells with a wrong number of references', '3/4-child cells beyond the listed mask samples'],
 )
